@@ -28,7 +28,7 @@ ANCHORS = [
 ]
 REQUIRED = ["runs_judged", "schedules_submitted", "empty_schedules", "schedules_beyond_horizon", "schedule_in_last_period_beyond_horizon",
             "set_pilot_calls_checked", "held_pilots_checked", "runs_with_negative_pilots_cancelling_across_stations", "plans_of_thousands_of_periods", "feasibility_queries_on_candidates_before_submitting", "schedules_resubmitting_views_of_the_pilot_matrix", "runs_with_one_mapping_object_overwritten_in_place", "twin_runs", "malformed_unknown_station_rejected", "malformed_unequal_rejected", "resumed_after_rejection",
-            "infeasible_schedule_warnings", "probe_ev_cells_checked", "regime:mr-None", "regime:mr-1", "regime:mr-k"]
+            "probe_ev_cells_checked", "regime:mr-None", "regime:mr-1", "regime:mr-k"]
 BUDGET_S = {"quick": 240, "thorough": 3000}
 
 PLOG = {"cur": None}
@@ -191,14 +191,22 @@ def run_case(case, obs):
             obs.violate("malformed_schedule_accepted", f"{kind} schedule at period {box['t']} was accepted", **wit)
             return
         if not ok_type:
-            obs.violate("malformed_schedule_wrong_error", f"{kind}: raised {type(exc).__name__}: {exc}", **wit)
-        p, c, en, it, cp, pk, hk = box["snap"]
+            # "rejected with an error": WHICH error class is the library's choice; recorded, not judged
+            obs.ev("malformed_schedule_refused_with_other_error:" + type(exc).__name__)
+
+        def same(a, b):
+            if isinstance(a, np.ndarray) and isinstance(b, np.ndarray) and a.ndim == b.ndim == 2 and a.shape[0] == b.shape[0]:
+                # how many (all-zero) columns the matrices hold in reserve is storage, not state
+                w = max(a.shape[1], b.shape[1])
+                pa = np.zeros((a.shape[0], w)); pa[:, :a.shape[1]] = a
+                pb = np.zeros((b.shape[0], w)); pb[:, :b.shape[1]] = b
+                return np.array_equal(pa, pb)
+            return np.array_equal(a, b) if isinstance(a, np.ndarray) else a == b
+
         now = box["take"]()
-        if not (np.array_equal(p, now[0]) and np.array_equal(c, now[1]) and en == now[2] and it == now[3] and cp == now[4] and pk == now[5]
-                and hk == now[6]):
-            what = [n for n, a, b in zip(["pilot_signals", "charging_rates", "energies", "iteration", "EVSE pilots", "peak", "schedule_history"],
-                                         box["snap"], now)
-                    if not (np.array_equal(a, b) if isinstance(a, np.ndarray) else a == b)]
+        what = [n for n, a, b in zip(["pilot_signals", "charging_rates", "energies", "iteration", "EVSE pilots", "peak", "schedule_history"],
+                                     box["snap"], now) if not same(a, b)]
+        if what:
             obs.violate("rejected_schedule_changed_state", f"{kind} schedule refused but {what} changed", **wit)
         obs.ev("malformed_" + kind + "_rejected")
         # nothing changed, so the period is still to be scheduled: calling run() again asks the scheduler again in that very
